@@ -281,8 +281,8 @@ namespace sim
     if (rng.chance(0.3))
       g.format = "base64inline";
     s.files[grid] = grid_text(g, rng);
-    static const int ns[] = {2, 2, 3, 3, 4, 5, 7, 8, 12, 16, 20, 33, 40};
-    const int N = ns[rng.below(13)];
+    // every thread count of the documented range, small ones a little more often
+    const int N = rng.chance(0.25) ? static_cast<int>(rng.range(2, 6)) : static_cast<int>(rng.range(2, 40));
     std::vector<std::string> flags;
     if (rng.chance(0.3))
       flags.push_back("--filtered");
@@ -341,7 +341,9 @@ namespace sim
       opt("# This is a comment in the data");
     if (dim == 2 || rng.chance(0.5))
       opt("# dim = " + std::to_string(dim));
-    if (compositions > 0 || rng.chance(0.3))
+    // options are honoured wherever they stand in the file: sometimes the only 'compositions' line comes late
+    const bool late_compositions = compositions > 0 && rng.chance(0.2);
+    if (!late_compositions && (compositions > 0 || rng.chance(0.3)))
       opt("# compositions = " + std::to_string(compositions));
     if (gcomp > 0 || rng.chance(0.1))
       opt("# grain compositions = " + std::to_string(gcomp));
@@ -381,7 +383,11 @@ namespace sim
         if (malformed_mode == 5 && i == rows / 2)
           f.push_back("17");            // too many fields
         if (malformed_mode == 6 && i == rows / 2)
-          f[1] = "abc";                 // not a number
+          {
+            // not a number, or a number followed by something else
+            static const char *bad[] = {"abc", "15o000", "150e3m", "1.500.000", "0x10", "inf", "nan", "--5", "5-", "1e", "e5", "1,5"};
+            f[rng.below(f.size())] = bad[rng.below(comma ? 11 : 12)];
+          }
         for (size_t k = 0; k < f.size(); ++k)
           o << (k ? (comma ? ", " : (rng.chance(0.1) ? "   " : " ")) : "") << f[k];
         o << "\n";
@@ -389,8 +395,8 @@ namespace sim
           o << "\n";
         if (rng.chance(0.05))
           o << "# comment between rows\n";
-        if (rng.chance(0.02))
-          o << "# compositions = " << compositions << "\n"; // an option repeated after data rows
+        if (rng.chance(0.02) || (late_compositions && i == rows / 2))
+          o << "# compositions = " << compositions << "\n"; // an option (repeated) after data rows
       }
     s.files[dat] = o.str();
     Op t;
@@ -468,8 +474,7 @@ namespace sim
     static const char *formats[] = {"base64inline", "base64inline", "base64inline", "ASCII", "ascii", "Base64Inline", "rawbinary", "base64appended", "rawbinarycompressed"};
     g.format = formats[rng.below(9)];
     s.files[grid] = grid_text(g, rng);
-    static const int ns[] = {1, 1, 2, 3, 7, 40};
-    const int N = ns[rng.below(6)];
+    const int N = rng.chance(0.4) ? 1 : static_cast<int>(rng.range(2, 40));
     Op t;
     t.op = "tool";
     t.tool = "grid";
